@@ -707,4 +707,25 @@ theorem reader_media_as_modelled :
        ("ReadFromHTTP", "fetches", "\"GET\" location.String()"),
        ("ReadFromFile", "reads", "filepath.FromSlash(location.Path)")] := by decide
 
+open KinModel.Gen in
+/-- How the entry points build the root location (the model's `Input.root`): `LoadFromFile` hands `LoadFromURI` a
+`url.URL` whose ONLY field is `Path`, the file path as given (never parsed as a URL reference: a '#', '?' or '%XX' in a
+directory or file name stays part of the path); `LoadFromURI` / `LoadFromDataWithPath` pass their own, never re-assigned
+`location` parameter on to `loadFromDataWithPathInternal`, which passes it to `ResolveRefsIn`; `LoadFromData` (and through it
+`LoadFromIoReader` / `LoadFromStdin`) resolves with no location. All unconditional, at top level. -/
+theorem entry_points_root_location : ∀ r ∈ readSites,
+    (r.callee = "LoadFromURI" → r.fn = "LoadFromFile" ∧ r.guard = "" ∧ r.arg = "&url.URL{Path: filepath.ToSlash(location)}") ∧
+    (r.callee = "loadFromDataWithPathInternal" →
+      (r.fn = "loadFromURIInternal" ∨ r.fn = "LoadFromDataWithPath") ∧ r.guard = "" ∧ r.arg = "location" ∧ r.argIsParam = true ∧ r.argAssigns = 0) ∧
+    (r.callee = "ResolveRefsIn" → r.guard = "" ∧
+      ((r.fn = "LoadFromData" ∧ r.arg = "nil") ∨
+       (r.fn = "loadFromDataWithPathInternal" ∧ r.arg = "location" ∧ r.argIsParam = true ∧ r.argAssigns = 0))) ∧
+    (r.callee = "loadFromURIInternal" ∧ r.fn = "LoadFromURI" → r.arg = "location" ∧ r.argAssigns = 0) := by decide
+
+open KinModel.Gen in
+theorem entry_points_present :
+    (readSites.filter (fun r => r.callee == "LoadFromURI")).length = 1 ∧
+    (readSites.filter (fun r => r.callee == "loadFromDataWithPathInternal")).length = 2 ∧
+    (readSites.filter (fun r => r.callee == "ResolveRefsIn")).length = 2 := by decide
+
 end KinModel.Reads
